@@ -1,0 +1,12 @@
+//go:build verif
+
+// Contracts for the deductive verifier in /verif (comment-only; compiled only
+// with -tags verif).  Syntax: see /verif/DESIGN.md.
+package tools
+
+// C15: expiry arithmetic.  "in" (relative) wins over "at" (absolute); an
+// expiry is reported when it lies before now+until.
+//@ func IsExpiredAtOrIn
+//@   props C15
+//@   ensures result0 == ite(in == 0, at, time_add(from, in))
+//@   ensures result1 == (result0 != time_zero && time_after(time_add(time_now(), until), result0))
